@@ -103,6 +103,7 @@ fn churn(plan: Plan, classes: u8, n: usize, tier: Tier, need_inplace: bool) -> B
     let mut c = MapCfg::new(plan, universe);
     c.alphabet = Alphabet::churn();
     c.max_live = Some(n);
+    c.no_growth_when_half_empty = true;
     let (size, align) = hashbrown::verif::table_layout_of::<(TKey, TVal)>();
     let base = hashbrown::verif::capacity_to_buckets(n.max(1), size, align).unwrap();
     c.bucket_bound = Some(4 * base);
@@ -136,6 +137,7 @@ fn churn_seeded(tier: Tier) -> Box<dyn Config> {
     let mut c = MapCfg::new(Plan::Zero, 30);
     c.alphabet = Alphabet::churn();
     c.max_live = Some(n);
+    c.no_growth_when_half_empty = true;
     let (size, align) = hashbrown::verif::table_layout_of::<(TKey, TVal)>();
     let base = hashbrown::verif::capacity_to_buckets(n, size, align).unwrap();
     c.bucket_bound = Some(4 * base);
